@@ -432,6 +432,29 @@ theorem fromGeopandas_eq (f : GpdFrameR) (fs fe : String) (hgeo : "geometry" ∉
   rw [gloop1_eq fs fe _ _ f.columns convLit_eq (fun k => propFields_contains f.columns fs fe k hgeo)]
   cases mapExcept _ _ <;> simp [Except.map, bind, Except.bind, pure, Except.pure]
 
+/-! ## KML exporters: `TimeInterval._to_fastkml`, `to_fastkml_placemark`, `to_fastkml_folder` -/
+
+theorem tiToFastkml_eq (a b : Int) : SrcIo.tiToFastkml (a, b) = .ok (toKTime (some (a, b))) := by
+  unfold SrcIo.tiToFastkml toKTime
+  by_cases h : a = b <;> simp [h, pure, Except.pure]
+
+theorem toFastkmlPlacemark_eq (s : Shape) : SrcIo.toFastkmlPlacemark s = toPlacemark s := by
+  unfold SrcIo.toFastkmlPlacemark toPlacemark giOrErr
+  cases toGI s.geom with
+  | none => rfl
+  | some g =>
+    rcases hd : s.dt with _ | ⟨a, b⟩
+    · simp [toKTime, bind, Except.bind, pure, Except.pure]
+    · simp [tiToFastkml_eq, bind, Except.bind, pure, Except.pure]
+
+/-- **`CollectionBase.to_fastkml_folder`, translated, builds the model's folder** -/
+theorem toFastkmlFolder_eq (coll : List Shape) (name : String) :
+    SrcIo.toFastkmlFolder coll name = toFolder name coll := by
+  unfold SrcIo.toFastkmlFolder toFolder
+  have h : (fun x => SrcIo.toFastkmlPlacemark x) = toPlacemark := funext toFastkmlPlacemark_eq
+  simp only [h]
+  cases mapExcept toPlacemark coll <;> rfl
+
 /-! ## the importers with the translated helpers in place, and the headline theorems restated for them
 
 `from_shapefile` / `from_geopandas` as `Model/Io.lean` has them, except that the time bounds of a row are what the
@@ -517,5 +540,14 @@ theorem gpd_roundtrip_partial_src (ch : GpdFrameW → GpdFrameR) (hch : ∀ w, c
 /-- `hgeo` holds of a non-trivial collection -/
 example : "geometry" ∉ (idealGpd ⟨[[("name", PVal.str "a"), ("n", PVal.int 1)]], [⟨"Point", [[[[0, 0]]]]⟩]⟩).columns := by
   decide
+
+/-- `kml_roundtrip_partial` for the translated exporter (`to_fastkml_folder` with `to_fastkml_placemark` and
+    `TimeInterval._to_fastkml`); the importer `parse_fastkml` is the model's (not translated) -/
+theorem kml_roundtrip_partial_src (ch : KNode → KNode) (hch : ∀ n, ch n = idealKml n)
+    (name : String) (coll : List Shape) (hwf : ∀ s ∈ coll, KmlShapeWF s) :
+    ∃ folder back, SrcIo.toFastkmlFolder coll name = .ok folder ∧ fromFolder (ch folder) = .ok back ∧
+      List.Forall₂ (KmlBackRel (folderLabel (some name))) coll back := by
+  obtain ⟨folder, back, h1, h2, h3⟩ := kml_roundtrip_partial ch hch name coll hwf
+  exact ⟨folder, back, by rw [toFastkmlFolder_eq]; exact h1, h2, h3⟩
 
 end GV.C20Src
